@@ -337,6 +337,40 @@ def p4_comment_then_cutput(q: int, k: int, anc: int, ti: int):
 
 
 FN8 = ['fst.astutil.repr_str_multiline', 'fst.astutil._escape_char']
+# ---------------------------------------------------------------------------------------------------------------- P5
+CMT_SRC = 'if c:  # h\n    x = 1  # old\n    y = 2\nz = 3\n'
+
+
+def p5_comment_ascii(ci: int, pos: int, tgt: int, full: bool):
+    """line comments with every ASCII character (controls included) at the start, in the middle or at the end of the text: either refused with the
+    tree untouched, or read back as written (up to the documented strip of surrounding whitespace) with the tree equal to CPython's parse"""
+    assume(0 <= ci <= 127 and 0 <= pos <= 2 and 0 <= tgt <= 2)
+    ch = chr(pc.pin(ci, 0, 127))
+    text = [ch + 'ab', 'a' + ch + 'b', 'ab' + ch][pc.pin(pos, 0, 2)]
+    with pc.untraced():
+        root = FST(CMT_SRC, 'exec')
+        pc.reset_globals()
+        node = [root.body[0], root.body[0].body[0], root.body[1]][pc.pin(tgt, 0, 2)]
+        dump0 = ast.dump(root.a, include_attributes=True)
+    sig = f'line_comment_ascii.{ord(ch):#04x}'
+    try:
+        node.put_line_comment(text, full=full)
+    except pc.EXPECTED_RAISES:
+        with pc.untraced():
+            check(root.src == CMT_SRC and ast.dump(root.a, include_attributes=True) == dump0, sig + '.refusal_changed_the_tree', (text,))
+        cover('raise')
+        return
+    with pc.untraced():
+        pc.o_parse(root, sig)
+        got = node.get_line_comment(full=full)
+        exp = text if full else text.strip()
+        if full:
+            exp = None      # full=True takes the text with its own '#': not judged here beyond the parse
+        if exp is not None:
+            check(got == exp, sig + '.not_read_back', (text, got))
+    cover('ok')
+
+
 CELLS = []
 for _n in (1, 2, 3, 4):
     CELLS.append(Cell(f'K1.repr_str_multiline[len={_n}]', _mk_repr(_n), 'K', FN8,
@@ -363,3 +397,5 @@ CELLS.append(Cell('P3.own_src', p3_own_src, 'P', ['fst.fst.FST.own_src', 'fst.fs
 CELLS.append(Cell('P4.comment_then_cut_put_back', p4_comment_then_cutput, 'P', ['fst.fst_trivia._getput_line_comment', 'fst.fst.FST.own_src', 'fst.fst.FST.get_slice', 'fst.fst.FST.put_slice'],
                   'carrier with 3 nested blocks and a try/except; pre-query kind, target statement, which ancestor, text (longer/shorter/equal): all symbolic (finite); comment reads back, ancestor own_src shows it, '
                   'cut + put back of the ancestor restores the structure', budget=900, per_path=90, reset=pc.reset_globals))
+CELLS.append(Cell('P5.comment_ascii', p5_comment_ascii, 'P', ['fst.fst_trivia._getput_line_comment'], 'put_line_comment(text) with every ASCII character 0..127 (pinned) at the start / middle / end of a 3-character text, on a block header, a statement with a comment and one without, full in {False, True}: refused cleanly or read back and tree == CPython parse',
+                  budget=600, per_path=60, reset=pc.reset_globals))
